@@ -1,24 +1,340 @@
 import Aplang.Prim.Text
-/-! STUB — replaced by the real module -/
+/-!
+# Model of `src/standard_library/robot.rs`
+
+Executable mirror of the Rust code (core Lean only).  Every definition is total; the partial Rust
+operations (`usize -= 1`, `usize += 1`, `u8 += 1` in the debug profile, `self.area[y][x]`, the
+`AreaCell::Wall => panic!` arm) are *panic primitives*: they produce `MoveRes.panic site`, so that
+"never panics" is a theorem (`Thm/C17.lean : move_no_panic`) and not a by-product of totality.
+
+Machine integers: `usize`/`isize` are 64 bit (`as isize`, `as usize` are `asIsize`, `asUsize`),
+`i8` arithmetic on headings stays inside `-1 ..= 5` so it is done in `Int`.
+-/
 namespace Aplang.Robot
+
+/-- `enum AreaCell` (the `u8` payload is a `Nat`; the parser only produces `1 ..= 9`) -/
 inductive Cell | wall | goal | space | checkpoint (n : Nat)
+deriving DecidableEq, Repr, Inhabited
+
+/-- `enum AreaDirection` (`repr(u8)`: 0,1,2,3) -/
 inductive Dir | north | east | south | west
+deriving DecidableEq, Repr, Inhabited
+
+/-- `enum RelativeDirection` (`repr(i8)`: 0,-1,1,2) -/
 inductive Rel | forward | left | right | backward
+deriving DecidableEq, Repr, Inhabited
+
+/-- `struct Robot` -/
 structure Robot where
-  area : List (List Cell)
-  width : Nat
-  height : Nat
-  x : Nat
-  y : Nat
+  area : List (List Cell)      -- rows, `area[y][x]`
+  width : Nat                   -- `area_size.0`
+  height : Nat                  -- `area_size.1`
+  x : Nat                       -- `location.0`
+  y : Nat                       -- `location.1`
   dir : Dir
-  power : Nat
-def parse (_s : Str) : Option Robot := none
-def parseRel (_s : Str) : Option Rel := none
-def canMove (_r : Robot) (_d : Rel) : Bool := false
+  power : Nat                   -- `checkpoint_power : u8`
+deriving DecidableEq, Repr, Inhabited
+
+/-! ## machine integers -/
+
+/-- `usize as isize` (two's complement reinterpretation, 64 bit) -/
+def asIsize (n : Nat) : Int := if n < 2^63 then (n : Int) else (n : Int) - 2^64
+
+/-- `isize as usize` (64 bit) -/
+def asUsize (i : Int) : Nat := if i < 0 then (2^64 - i.natAbs) else i.toNat
+
+/-- `usize -= 1` (panics on underflow: `none`) -/
+def usizeDec (n : Nat) : Option Nat := if n = 0 then none else some (n - 1)
+
+/-- `usize += 1` (debug profile: panics on overflow: `none`) -/
+def usizeInc (n : Nat) : Option Nat := if n + 1 < 2^64 then some (n + 1) else none
+
+/-- `u8 += 1` (debug profile: panics on overflow: `none`) -/
+def u8Inc (n : Nat) : Option Nat := if n + 1 < 256 then some (n + 1) else none
+
+/-! ## headings -/
+
+/-- `self.direction as i8` -/
+def Dir.toI8 : Dir → Int | .north => 0 | .east => 1 | .south => 2 | .west => 3
+
+/-- `direction as i8` -/
+def Rel.toI8 : Rel → Int | .forward => 0 | .left => -1 | .right => 1 | .backward => 2
+
+/-- `impl From<i8> for AreaDirection`: `value.rem_euclid(4)`; the `_ => unreachable!()` arm is
+    unreachable because `0 ≤ v.emod 4 < 4` (mapped to `west` here; `Dir.ofI8_cases` covers it). -/
+def Dir.ofI8 (value : Int) : Dir :=
+  match (value.emod 4).toNat with
+  | 0 => .north
+  | 1 => .east
+  | 2 => .south
+  | _ => .west
+
+def rotateLeft (r : Robot) : Robot := { r with dir := Dir.ofI8 (r.dir.toI8 - 1) }
+def rotateRight (r : Robot) : Robot := { r with dir := Dir.ofI8 (r.dir.toI8 + 1) }
+
+/-! ## `impl FromStr for RelativeDirection` -/
+
+def parseRel (s : Str) : Option Rel :=
+  let u := s.map Char.toUpper            -- `to_ascii_uppercase` (`Char.toUpper` is ASCII-only)
+  if u = ['L','E','F','T'] then some .left
+  else if u = ['R','I','G','H','T'] then some .right
+  else if u = ['F','O','R','W','A','R','D'] then some .forward
+  else if u = ['B','A','C','K','W','A','R','D'] then some .backward
+  else none
+
+/-! ## `impl FromStr for Robot` -/
+
+/-- `str::split_inclusive('\n')` -/
+def splitInclusive : Str → List Str
+  | [] => []
+  | c :: cs =>
+    if c = '\n' then [c] :: splitInclusive cs
+    else match splitInclusive cs with
+      | [] => [[c]]
+      | l :: ls => (c :: l) :: ls
+
+/-- the closure of `str::lines`: strip a final `"\n"`, and then a `'\r'` before it.
+    (A bare `'\r'` at the very end of the text is kept — rustc 1.95, checked on the real binary.) -/
+def stripLine : Str → Str
+  | [] => []
+  | c :: cs =>
+    if c = '\n' ∧ cs = [] then []
+    else if c = '\r' ∧ cs = ['\n'] then []
+    else c :: stripLine cs
+
+/-- `str::lines` -/
+def lines (s : Str) : List Str := (splitInclusive s).map stripLine
+
+/-- what one character of the map text means (the `match ch` of `from_str`) -/
+inductive Sym | cell (c : Cell) | robot (d : Dir) | zero | other
+deriving DecidableEq, Repr
+
+def classify (ch : Char) : Sym :=
+  if ch = '#' ∨ ch = '@' then .cell .wall
+  else if ch = '.' ∨ ch = ',' ∨ ch = ' ' then .cell .space
+  else if ch = 'x' ∨ ch = 'X' then .cell .goal
+  else if ch = 'n' ∨ ch = 'N' then .robot .north
+  else if ch = 's' ∨ ch = 'S' then .robot .south
+  else if ch = 'e' ∨ ch = 'E' then .robot .east
+  else if ch = 'w' ∨ ch = 'W' then .robot .west
+  else if isAsciiDigit ch then
+    let n := ch.toNat - 48                 -- `n as u8 - b'0'`
+    if n = 0 then .zero else .cell (.checkpoint n)
+  else .other
+
+/-- `robot_location`, `robot_direction` -/
+structure Found where
+  loc : Option (Nat × Nat)
+  dir : Option Dir
+deriving DecidableEq, Repr
+
+/-- inner loop `for (x, ch) in row_chars.into_iter().enumerate()`; `none` is `return Err(())` -/
+def parseCells (y : Nat) : Nat → Str → Found → Option (List Cell × Found)
+  | _, [], st => some ([], st)
+  | x, ch :: rest, st =>
+    match classify ch with
+    | .cell c =>
+      match parseCells y (x + 1) rest st with
+      | none => none
+      | some (cs, st') => some (c :: cs, st')
+    | .robot d =>
+      if st.loc.isSome then none
+      else match parseCells y (x + 1) rest ⟨some (x, y), some d⟩ with
+        | none => none
+        | some (cs, st') => some (Cell.space :: cs, st')
+    | .zero => none
+    | .other => none
+
+/-- `if row_chars.len() < max_width { row_chars.resize(max_width, ' ') }` -/
+def padRow (w : Nat) (row : Str) : Str :=
+  if row.length < w then row ++ List.replicate (w - row.length) ' ' else row
+
+/-- outer loop `for (y, line) in lines.iter().enumerate()` -/
+def parseRows (w : Nat) : Nat → List Str → Found → Option (List (List Cell) × Found)
+  | _, [], st => some ([], st)
+  | y, line :: rest, st =>
+    match parseCells y 0 (padRow w line) st with
+    | none => none
+    | some (row, st1) =>
+      match parseRows w (y + 1) rest st1 with
+      | none => none
+      | some (rows, st2) => some (row :: rows, st2)
+
+/-- `lines.iter().map(|line| line.len()).max().unwrap_or(0)` — BYTE lengths -/
+def maxWidth : List Str → Nat
+  | [] => 0
+  | l :: ls => max (ulen l) (maxWidth ls)
+
+def parse (s : Str) : Option Robot :=
+  let ls := lines s
+  let maxW := maxWidth ls
+  let height := ls.length
+  match parseRows maxW 0 ls ⟨none, none⟩ with
+  | none => none
+  | some (area, st) =>
+    match st.loc with
+    | none => none
+    | some (x, y) =>
+      match st.dir with
+      | none => none
+      | some d => some { area := area, width := maxW, height := height, x := x, y := y, dir := d, power := 1 }
+
+/-! ## `can_move` -/
+
+/-- Rust: `check_pos < (0, 0)` on `(isize, isize)` — lexicographic -/
+def tupleLtZero (a b : Int) : Bool := a < 0 || (a == 0 && b < 0)
+
+/-- `check_pos` = (row, col) -/
+def checkPos (r : Robot) (d : Dir) : Int × Int :=
+  match d with
+  | .north => (asIsize r.y - 1, asIsize r.x)
+  | .east  => (asIsize r.y,     asIsize r.x + 1)
+  | .south => (asIsize r.y + 1, asIsize r.x)
+  | .west  => (asIsize r.y,     asIsize r.x - 1)
+
+def canMove (r : Robot) (d : Rel) : Bool :=
+  let checkDirection := Dir.ofI8 (r.dir.toI8 + d.toI8)
+  let (row, col) := checkPos r checkDirection
+  if tupleLtZero row col then false else
+  match r.area[asUsize row]? with
+  | none => false
+  | some rw =>
+    match rw[asUsize col]? with
+    | none => false
+    | some c => c != .wall
+
+/-! ## `move_forward` -/
+
 inductive MoveRes | moved (r : Robot) (result : Bool) | blocked | panic (site : String)
-def moveForward (_r : Robot) : MoveRes := .blocked
-def rotateLeft (r : Robot) : Robot := r
-def rotateRight (r : Robot) : Robot := r
-def fmtAscii (_r : Robot) : Str := []
-def fmtUnicode (_r : Robot) : Str := []
+deriving DecidableEq, Repr
+
+def Cell.isCheckpoint : Cell → Bool | .checkpoint _ => true | _ => false
+
+/-- `matches!(cell, AreaCell::Checkpoint(p) if *p <= power)` -/
+def Cell.isCheckpointLe (power : Nat) : Cell → Bool | .checkpoint p => p ≤ power | _ => false
+
+/-- the position update `match self.direction { … -= 1 / += 1 }` -/
+def advance (r : Robot) : Option (Nat × Nat) :=
+  match r.dir with
+  | .north => (usizeDec r.y).map fun y => (r.x, y)
+  | .east  => (usizeInc r.x).map fun x => (x, r.y)
+  | .south => (usizeInc r.y).map fun y => (r.x, y)
+  | .west  => (usizeDec r.x).map fun x => (x, r.y)
+
+/-- `move_forward`; `None ↦ blocked`.  The two writes `self.area[y][x] = Space` use the indices that
+    were just read successfully, so they are modelled by `List.set`. -/
+def moveForward (r : Robot) : MoveRes :=
+  if canMove r .forward then
+    match advance r with
+    | none => .panic "usize arithmetic overflow in move_forward"
+    | some (x, y) =>
+      match r.area[y]? with
+      | none => .panic "index out of bounds: self.area[y]"
+      | some row =>
+        match row[x]? with
+        | none => .panic "index out of bounds: self.area[y][x]"
+        | some moveCell =>
+          match moveCell with
+          | .goal =>
+            let checkpointExists := r.area.flatten.any Cell.isCheckpoint
+            if !checkpointExists then
+              .moved { r with x := x, y := y, area := r.area.set y (row.set x .space) } true
+            else
+              .moved { r with x := x, y := y } false
+          | .checkpoint order =>
+            if r.power ≥ order then
+              let area' := r.area.set y (row.set x .space)
+              if !(area'.flatten.any (Cell.isCheckpointLe r.power)) then
+                match u8Inc r.power with
+                | none => .panic "u8 overflow: checkpoint_power += 1"
+                | some p => .moved { r with x := x, y := y, area := area', power := p } false
+              else
+                .moved { r with x := x, y := y, area := area' } false
+            else
+              .moved { r with x := x, y := y } false
+          | .space => .moved { r with x := x, y := y } false
+          | .wall => .panic "THIS IS A BUG: Moved into a wall"
+  else
+    .blocked
+
+/-! ## `impl Debug` / `impl Display` -/
+
+/-- `{power}` for a `u8` -/
+def decimal (n : Nat) : Str := Nat.toDigits 10 n
+
+structure Glyphs where
+  tl : Char
+  tr : Char
+  bl : Char
+  br : Char
+  hbar : Char
+  vbar : Char
+  cell : Cell → Str
+  dir : Dir → Str
+
+def asciiGlyphs : Glyphs where
+  tl := '+'
+  tr := '+'
+  bl := '+'
+  br := '+'
+  hbar := '-'
+  vbar := '|'
+  cell
+    | .wall => ['#', '#']
+    | .goal => ['X', 'X']
+    | .space => ['.', '.']
+    | .checkpoint p => decimal p ++ decimal p
+  dir
+    | .north => ['n', 'n']
+    | .east => ['e', 'e']
+    | .south => ['s', 's']
+    | .west => ['w', 'w']
+
+def unicodeGlyphs : Glyphs where
+  tl := '┌'
+  tr := '┐'
+  bl := '└'
+  br := '┘'
+  hbar := '─'
+  vbar := '│'
+  cell
+    | .wall => ['█', '█']
+    | .goal => ['╳', '╳']
+    | .space => ['░', '░']
+    | .checkpoint p => decimal p ++ decimal p
+  dir
+    | .north => ['▲', '▲']
+    | .east => ['►', '►']
+    | .south => ['▼', '▼']
+    | .west => ['◄', '◄']
+
+/-- marker for the `self.area[y][x]` index panic inside `fmt` (unreachable for well-formed robots:
+    `Thm/C17.lean : fmtAscii_eq_render`) -/
+def fmtPanicGlyph : Str := ['!', '!']
+
+/-- body of `for x in 0..width` -/
+def fmtCell (g : Glyphs) (r : Robot) (y x : Nat) : Str :=
+  (if (x, y) = (r.x, r.y) then g.dir r.dir
+   else match r.area[y]? with
+     | none => fmtPanicGlyph
+     | some row => match row[x]? with
+       | none => fmtPanicGlyph
+       | some c => g.cell c) ++ [' ']
+
+/-- body of `for y in 0..height` -/
+def fmtRow (g : Glyphs) (r : Robot) (y : Nat) : Str :=
+  [g.vbar, ' '] ++ ((List.range r.width).map (fmtCell g r y)).flatten ++ [g.vbar, '\n']
+
+/-- the two `fmt` implementations have the same shape and differ in the glyph tables only -/
+def fmtGrid (g : Glyphs) (r : Robot) : Str :=
+  [g.tl] ++ List.replicate (r.width * 3) g.hbar ++ [g.hbar, g.tr, '\n']
+  ++ ((List.range r.height).map (fmtRow g r)).flatten
+  ++ [g.bl] ++ List.replicate (r.width * 3) g.hbar ++ [g.hbar, g.br, '\n']
+
+/-- `impl Debug for Robot` (FORMAT_ROBOT_ASCII) -/
+def fmtAscii (r : Robot) : Str := fmtGrid asciiGlyphs r
+
+/-- `impl Display for Robot` (FORMAT_ROBOT) -/
+def fmtUnicode (r : Robot) : Str := fmtGrid unicodeGlyphs r
+
 end Aplang.Robot
